@@ -11,7 +11,9 @@ for log in sys.argv[1:]:
         m = re.match(r"^######## (\S+)/(\S+)", line)
         if m:
             cur = f"{m.group(1)}-{m.group(2)}"
-            entries[cur] = dict(src=(m.group(1), m.group(2)), verify=None, checks=[])
+            old = entries.get(cur)
+            entries[cur] = dict(src=(m.group(1), m.group(2)), verify=old["verify"] if old else None, checks=[],
+                                runs=(old["runs"] if old else []) + [dict(log=os.path.basename(log), checks=[])])
             continue
         if cur is None:
             continue
@@ -20,6 +22,7 @@ for log in sys.argv[1:]:
         m = re.match(r"^== (C\d+) rc=(\d+)", line)
         if m:
             entries[cur]["checks"].append(dict(check=m.group(1), rc=int(m.group(2)), lines=[]))
+            entries[cur]["runs"][-1]["checks"].append(f"{m.group(1)}:exit{m.group(2)}")
         elif entries[cur]["checks"] and (line.startswith("VIOLATION") or line.startswith("  engine") or line.startswith("HELD") or line.startswith("INCONCLUSIVE")):
             entries[cur]["checks"][-1]["lines"].append(line.strip()[:300])
 NOTES = {
@@ -66,7 +69,12 @@ for name, e in sorted(entries.items()):
         checks_run=[dict(check=c["check"], exit=c["rc"], output=c["lines"][:6]) for c in e["checks"]],
         caught_by=kinds[:8],
         verdict="caught" if caught else ("missed" if missed else "not run"),
+        history=[r for r in e["runs"] if r["checks"]],
     )
+    # the honest first-run outcome of the check of the property the break was written against
+    if not own:
+        firsts = [c for r in e["runs"] for c in r["checks"] if c.startswith(a + ":")]
+        meta["own_check_first_run"] = firsts[0] if firsts else "not run"
     if meta["name"] in NOTES:
         meta["verdict"], meta["note"] = NOTES[meta["name"]]
     json.dump(meta, open(os.path.join(dst, "meta.json"), "w"), indent=1)
